@@ -53,7 +53,8 @@ CONSTANTS
   FixX87,      \* TRUE: aggregates containing long double go to memory / st0
   FixVaArea,   \* TRUE: variadic prologue counts registers like the spill loop and skips named stack params
   FixVaStride, \* TRUE: register save area uses the psABI layout (16 bytes per xmm)
-  FixVaArg,    \* TRUE: va_arg classifies aggregates and long double per psABI  (D22 repaired)
+  FixVaArg,    \* TRUE: va_arg classifies aggregates per psABI                     (D22, aggregates, repaired)
+  FixVaArgLd,  \* TRUE: __builtin_reg_class(long double) = memory               (D22, long double, repaired)
   FixRetRax,   \* TRUE: a MEMORY-class return leaves the hidden pointer in rax
   Waived,      \* disagreement classes recorded as open findings
   MaxLen,      \* bound on the number of arguments of a behaviour
@@ -271,7 +272,8 @@ CallerDecide(T, c) ==
       [mem |-> TRUE, off |-> 8 * s0, c |-> [c EXCEPT !.stack = s0 + Up(T.size, 8) \div 8]]
     ELSE LET need == AggNeed(T, T.fp2) IN
          IF AggFits(c, need) THEN [mem |-> FALSE, off |-> 0, c |-> [c EXCEPT !.fp = @ + need.fp, !.gp = @ + need.gp]]
-         ELSE [mem |-> TRUE, off |-> 8 * c.stack, c |-> [c EXCEPT !.stack = @ + Up(T.size, 8) \div 8]]
+         ELSE LET s1 == IF FixAlign16 /\ T.align = 16 THEN Up(c.stack, 2) ELSE c.stack IN
+              [mem |-> TRUE, off |-> 8 * s1, c |-> [c EXCEPT !.stack = s1 + Up(T.size, 8) \div 8]]
   ELSE IF T.k \in FltKinds THEN
     IF c.fp >= FP_MAX THEN [mem |-> TRUE, off |-> 8 * c.stack, c |-> [c EXCEPT !.fp = @ + Over, !.stack = @ + 1]]
     ELSE [mem |-> FALSE, off |-> 0, c |-> [c EXCEPT !.fp = @ + 1]]
@@ -326,14 +328,16 @@ SpillRegs(T, s) ==
 IsFlonumI(T) == T.k \in {"float", "double", "ldouble"}
 VaCount(T, w) == IF IsFlonumI(T) THEN [w EXCEPT !.fp = @ + 1] ELSE [w EXCEPT !.gp = @ + 1]
 FpStride == IF FixVaStride THEN 16 ELSE 8
-VaInitI(w, s, c) == IF FixVaArea THEN [gp |-> 8 * s.gp, fp |-> 48 + FpStride * s.fp, ovf |-> c.top - 16, okc |-> TRUE, oko |-> TRUE]
+VaInitI(w, s, c) == IF FixVaArea   \* repaired: registers counted like the spill loop (struct_regs per aggregate, parameters with a
+                                   \* stack home skipped), overflow_arg_area = end of the last named stack home, rounded up to 8
+                    THEN [gp |-> 8 * s.gp, fp |-> 48 + FpStride * s.fp, ovf |-> Up(c.top, 8) - 16, okc |-> TRUE, oko |-> TRUE]
                     ELSE [gp |-> 8 * Min2(w.gp, GP_MAX), fp |-> 48 + FpStride * Min2(w.fp, FP_MAX), ovf |-> 0, okc |-> TRUE, oko |-> TRUE]
 SaveRegI(off) == IF off < 48 THEN R("gp", off \div 8) ELSE R("sse", (off - 48) \div FpStride)
 
 (* include/stdarg.h: va_arg = __builtin_reg_class + __va_arg_gp / __va_arg_fp / __va_arg_mem *)
 RegClassI(T) == IF T.k \in IntKinds THEN 0 ELSE IF IsFlonumI(T) THEN 1 ELSE 2
 WalkI(T, v) ==
-  IF FixVaArg /\ (T.agg \/ T.k = "ldouble") THEN      \* repaired: psABI walker on chibicc's save-area layout
+  IF (FixVaArg /\ T.agg) \/ (FixVaArgLd /\ T.k = "ldouble") THEN   \* repaired: psABI walker on chibicc's save-area layout
     LET cs == T.cs
         ni == Cnt(cs, "INTEGER")
         ns == Cnt(cs, "SSE") IN
